@@ -511,3 +511,59 @@ func (fs *FS) EqualsDir(dir string) error {
 	}
 	return nil
 }
+
+// LoadDir fills the (empty) model with the content of a real directory: the starting image of a nested run.
+func (fs *FS) LoadDir(dir string) error {
+	return filepath.Walk(dir, func(p string, info os.FileInfo, err error) error {
+		if err != nil {
+			return err
+		}
+		rel, _ := filepath.Rel(dir, p)
+		if rel == "." {
+			return nil
+		}
+		parent, name, _ := fs.lookup(rel)
+		if parent == nil {
+			return fmt.Errorf("LoadDir: no parent for %q", rel)
+		}
+		if info.IsDir() {
+			parent.children[name] = &node{dir: true, children: map[string]*node{}}
+			return nil
+		}
+		b, err := os.ReadFile(p)
+		if err != nil {
+			return err
+		}
+		parent.children[name] = &node{data: b}
+		return nil
+	})
+}
+
+// WithoutEntries temporarily removes the given entries (relative paths), calls f, and restores them.
+func (fs *FS) WithoutEntries(rels []string, f func() error) error {
+	type saved struct {
+		parent *node
+		name   string
+		n      *node
+	}
+	var sv []saved
+	for _, r := range rels {
+		parent, name, n := fs.lookup(r)
+		if parent == nil || n == nil {
+			continue
+		}
+		sv = append(sv, saved{parent, name, n})
+		delete(parent.children, name)
+	}
+	err := f()
+	for _, s := range sv {
+		s.parent.children[s.name] = s.n
+	}
+	return err
+}
+
+// Exists reports whether the image has an entry at rel.
+func (fs *FS) Exists(rel string) bool {
+	_, _, n := fs.lookup(rel)
+	return n != nil
+}
